@@ -4,6 +4,8 @@ import (
 	"context"
 	"errors"
 	"time"
+
+	libcb "github.com/megaease/easegress/pkg/util/circuitbreaker"
 )
 
 // C08 (wrapper), package resilience: circuitBreakerWrapper.Wrap records exactly one
@@ -74,5 +76,45 @@ func verifC08_Wrapper() {
 	case 2:
 		verifAssert(panicked, "panic-re-raised")
 		verifCover("panic-recorded-as-failure")
+	}
+}
+
+// verifC08_PolicyMapping: the circuit breaker that a CircuitBreakerPolicy creates runs with the
+// numbers and durations the policy states - for both window types (the window size of a
+// TIME_BASED policy is seconds, unrelated to minimumNumberOfCalls) - and with the documented
+// defaults for durations left out.
+func verifC08_PolicyMapping() {
+	types := []string{"", "COUNT_BASED", "TIME_BASED", "time_based"}
+	ti := verifChoose("policy.slidingWindowType", len(types))
+	durs := []string{"", "10s", "90s"}
+	dval := []time.Duration{time.Minute, 10 * time.Second, 90 * time.Second}
+	di := verifChoose("policy.durations", len(durs))
+	p := &CircuitBreakerPolicy{
+		SlidingWindowType:                types[ti],
+		FailureRateThreshold:             uint8(verifInt("policy.failureRateThreshold", 1, 100)),
+		SlowCallRateThreshold:            uint8(verifInt("policy.slowCallRateThreshold", 1, 100)),
+		SlidingWindowSize:                uint32(verifInt("policy.slidingWindowSize", 1, 20)),
+		PermittedNumberOfCallsInHalfOpen: uint32(verifInt("policy.permittedNumberOfCallsInHalfOpenState", 0, 20)),
+		MinimumNumberOfCalls:             uint32(verifInt("policy.minimumNumberOfCalls", 0, 40)),
+		SlowCallDurationThreshold:        durs[di],
+		WaitDurationInOpen:               durs[di],
+		MaxWaitDurationInHalfOpen:        durs[di],
+	}
+	w := p.CreateWrapper().(circuitBreakerWrapper)
+	lp := verifGetField(w.CircuitBreaker, "policy").(*libcb.Policy)
+	wantTime := ti >= 2
+	verifAssert((lp.SlidingWindowType == libcb.TimeBased) == wantTime, "window-type-as-configured")
+	verifAssert(lp.FailureRateThreshold == p.FailureRateThreshold && lp.SlowCallRateThreshold == p.SlowCallRateThreshold, "thresholds-as-configured")
+	verifAssert(lp.SlidingWindowSize == p.SlidingWindowSize, "window-size-as-configured")
+	verifAssert(lp.MinimumNumberOfCalls == p.MinimumNumberOfCalls, "minimum-number-of-calls-as-configured")
+	verifAssert(lp.PermittedNumberOfCallsInHalfOpen == p.PermittedNumberOfCallsInHalfOpen, "permitted-trials-as-configured")
+	verifAssert(lp.SlowCallDurationThreshold == dval[di] && lp.WaitDurationInOpen == dval[di], "durations-as-configured-or-default-one-minute")
+	if di == 0 {
+		verifAssert(lp.MaxWaitDurationInHalfOpen == 0, "no-max-wait-unless-configured")
+	} else {
+		verifAssert(lp.MaxWaitDurationInHalfOpen == dval[di], "durations-as-configured-or-default-one-minute")
+	}
+	if wantTime && p.MinimumNumberOfCalls > p.SlidingWindowSize {
+		verifCover("time-based-minimum-above-window-seconds")
 	}
 }
